@@ -335,6 +335,7 @@ class StmtMixin:
         def ctx_of(p, k):
             c = Ctx(self, p, self.cur_args, None, p.env, k)
             c.ks = outer_ks + [k]  # counters of the enclosing loops (outermost first), then this loop's
+            c.seq = seq  # the sequence a for-loop iterates (None for while)
             return c
 
         # 1. invariant on entry (k = 0)
@@ -387,12 +388,16 @@ class StmtMixin:
                             self.assumptions.add(f"termination of while-loop #{ordn} of {self.cur_func.qual} not proved (no variant)")
                         self.ended_paths.append(p2)  # path ends at the back edge: keep its obligations
                     elif kind == BRK:
+                        if spec.get("at_exit") is not None:
+                            self.oblige(p2, f"loop-exit:{tag}", spec["at_exit"](ctx_of(p2, k)), s)
                         outs.append((NEXT, p2, None))
                     else:
                         outs.append((kind, p2, val))
             # 3b. loop exits
             pe.assume(sv.Not(g))
             if self.feasible(pe):
+                if spec.get("at_exit") is not None:
+                    self.oblige(pe, f"loop-exit:{tag}", spec["at_exit"](ctx_of(pe, k)), s)
                 outs += self.exec_block(s.orelse, pe) if s.orelse else [(NEXT, pe, None)]
         return outs
 
